@@ -25,7 +25,7 @@ BAD_LINES = {
     "empty": ["\n", "", "   \n", ";;;;;\n"],
     "overrange": ["256;0;1;0;0;1\n", "1;256;1;0;0;1\n", "1;0;5;0;0;1\n", "1;0;1;2;0;1\n", "-1;0;1;0;0;1\n"],
     "alpha": ["a;0;1;0;0;1\n", "1;b;1;0;0;1\n", "1;0;c;0;0;1\n", "1;0;1;d;0;1\n", "1;0;1;0;e;1\n", "invalid\n",
-              "1;0;\u00b2;0;0;21.5\n", "1;\u00b3;1;0;0;1\n", "1;0;1;0;\u2460;1\n", "\u0661;0;1;0;0;1\n"],
+              "1;0;\u00b2;0;0;21.5\n", "1;\u00b3;1;0;0;1\n", "1;0;1;0;\u2460;1\n"],
     "crossfield": ["1;0;3;0;0;57\n", "1;0;4;0;0;\n", "1;255;1;0;0;1\n", "1;255;2;0;0;\n"],
     "float": ["1.0;0;1;0;0;1\n", "1;0.5;1;0;0;1\n", "1;0;1;0;1e3;1\n"],
 }
